@@ -27,6 +27,8 @@ type Opts struct {
 	MaxMapSize int
 	// GroupBias: extra percentage of steps that are groups (to reach deep nesting).
 	GroupBias int
+	// ManySteps: one document in ManySteps gets 48-70 top-level steps (0: never)
+	ManySteps int
 	Hist      func(string)
 }
 
@@ -219,6 +221,15 @@ func (o *Opts) Plugins() any {
 		for i := range out {
 			if r.Intn(5) == 0 {
 				out[i] = src()
+				continue
+			}
+			if r.Intn(6) == 0 {
+				// one list item naming two plugins (the forgotten-dash spelling): two plugins, in order
+				o.hist("plugins.multi-entry-item")
+				it := ordered.NewMap[string, any](2)
+				it.Set(src(), cfg())
+				it.Set(src()+"-second", cfg())
+				out[i] = it
 				continue
 			}
 			out[i] = ordered.MapFromItems(ordered.TupleSA{Key: src(), Value: cfg()})
@@ -508,6 +519,11 @@ func (o *Opts) Step(depth int) any {
 		o.hist("step.typed")
 		m := ordered.NewMap[string, any](3)
 		m.Set("type", core.Pick(r, []string{"wait", "waiter", "block", "input", "manual", "trigger", "group"}))
+		if o.TypeErrors > 0 && r.Intn(1000) < o.TypeErrors {
+			// a type that is not a string: a hard error of the whole parse, never a usable result with a hole
+			o.hist("type-error-injected.non-string-type")
+			m.Set("type", core.Pick(r, []any{123, true, 1.5, nil, []any{"wait"}, o.Map(0, 1)}))
+		}
 		o.addExtras(m, r.Intn(3))
 		return m
 	case 6:
@@ -548,7 +564,16 @@ func (o *Opts) Pipeline() any {
 	if r.Intn(3) != 0 {
 		m.Set("env", o.Env(5))
 	}
-	if r.Intn(12) != 0 {
+	if o.ManySteps > 0 && r.Intn(o.ManySteps) == 0 {
+		// a long pipeline (size-triggered code paths): 48-70 top-level steps
+		o.hist("top.many-steps")
+		n := 48 + r.Intn(23)
+		ss := make([]any, n)
+		for i := range ss {
+			ss[i] = o.Step(0)
+		}
+		m.Set("steps", ss)
+	} else if r.Intn(12) != 0 {
 		m.Set("steps", o.Steps(0, 6))
 	}
 	o.addExtras(m, r.Intn(3))
